@@ -20,7 +20,8 @@ class Message:
     def _check_args(self):
         if any(type(arg)(' ') in arg in arg for arg in self.args[:-1] if isinstance(arg, str)):
             raise Error('Space can only appear in the very last arg')
-        if any(type(arg)('\n') in arg for arg in self.args if isinstance(arg, str)):
+        values = [*self.args, self.command, self.prefix]
+        if any('\n' in value or '\r' in value for value in values if isinstance(value, str)):
             raise Error('No newline allowed')
 
     @staticmethod
